@@ -18,8 +18,7 @@ def run(tier, seed):
         shards = 16
         scale = 1 if tier == "quick" else 12
         args = ["--scale", scale]
-        if tier == "thorough":
-            args.append("--big")
+        args.append("--big")       # one record above tokio's 2 MiB file buffer per shard, in both tiers
         reports = common.run_vh_shards("c20", shards, args, wd, 600 if tier == "quick" else 3000, seed)
         out.absorb(common.merge_reports(reports))
         out.min_nontrivial = 20
